@@ -21,6 +21,7 @@ static const char *stname5(int st) {
 static bool definitive5(int st) { return st == QS_LP_OPTIMAL || st == QS_LP_INFEASIBLE || st == QS_LP_UNBOUNDED; }
 
 // history generator shared with C16/C17/C18/C20 (they reuse the op vocabulary)
+static bool g_adaptive_tail = false;   // only C05's own runner knows the delslack op
 void gen_history(Tape &t, Case &c, int maxlen, bool allow_copy, int solve_weight) {
   GenOpts go;
   go.maxm = 1 + (int)t.below(6); go.maxn = 1 + (int)t.below(6); go.bigness = 1;
@@ -67,6 +68,55 @@ void gen_history(Tape &t, Case &c, int maxlen, bool allow_copy, int solve_weight
     c.ops.push_back(o);
     if (t.chance(1, 5)) c.ops.push_back(Op("probe"));
   }
+  // Adaptive tail (about a third of the histories): solve, then delete two or three rows that are NOT tight at
+  // the optimum just found -- the one kind of delete after which the library keeps its cached solution -- in an
+  // order chosen here, probe the accessors, and let the final solve below start from what was retained.  Which
+  // rows are slack is only known at run time, so the op carries selectors and the runner picks the rows; nothing
+  // generated follows it except probes and solves, which do not depend on the row count.
+  if (g_adaptive_tail && t.chance(1, 3)) {
+    // two or three rows that cannot be tight: over boxed columns with a right-hand side beyond what the box
+    // allows (or empty rows with a slack right-hand side)
+    int nslack = 2 + (int)t.below(2);
+    for (int k = 0; k < nslack; k++) {
+      std::vector<int> boxed;
+      for (int j = 0; j < gm.n(); j++) if (is_fin(gm.cols[j].lo) && is_fin(gm.cols[j].up)) boxed.push_back(j);
+      std::vector<int> cols;
+      while (!boxed.empty() && (int)cols.size() < 3 && t.chance(2, 3)) {
+        int posi = (int)t.below((uint32_t)boxed.size());
+        cols.push_back(boxed[posi]);
+        boxed.erase(boxed.begin() + posi);
+      }
+      bool le = t.coin();
+      Q extreme = 0;
+      std::vector<Q> coef;
+      for (int j : cols) {
+        Q a = gen_nz(t, 1);
+        coef.push_back(a);
+        Q v1 = a * gm.cols[j].lo, v2 = a * gm.cols[j].up;
+        extreme += le ? (v1 > v2 ? v1 : v2) : (v1 < v2 ? v1 : v2);
+      }
+      Q gap = abs(gen_nz(t, 1));
+      Op ar("addrows");
+      ar.I(0).I(1).I(le ? 'L' : 'G').I((long)cols.size());
+      ar.N(le ? Q(extreme + gap) : Q(extreme - gap)).N(Q(0));
+      for (size_t x = 0; x < cols.size(); x++) { ar.I(cols[x]); ar.N(coef[x]); }
+      ar.S(strprintf("slk%d_%d", eg.name_counter++, k));
+      if (!model_apply(gm, ar, nullptr)) continue;
+      c.ops.push_back(ar);
+    }
+    SolveCfg c1 = gen_cfg(t, true);
+    c1.precision = 0;
+    if (t.chance(2, 3)) c1.entry = 1 + (int)t.below(2);     // the direct simplex leaves cache + basis + factorization
+    Op so = c1.op();
+    so.k = "solve";
+    c.ops.push_back(so);
+    Op d("delslack");
+    d.I(t.below(4)).I(t.below(5));                 // order: 0 as picked, 1 descending, 2 ascending, 3 rotate; API variant
+    for (int k = 0; k < 3; k++) d.I(t.below(64));  // selectors
+    d.I(2 + (int)t.below(2));                      // how many
+    c.ops.push_back(d);
+    if (t.chance(3, 4)) c.ops.push_back(Op("probe"));
+  }
   // always end with a solve so that the last edits are judged
   SolveCfg cfg = gen_cfg(t, true);
   cfg.precision = 0;
@@ -75,7 +125,7 @@ void gen_history(Tape &t, Case &c, int maxlen, bool allow_copy, int solve_weight
   c.ops.push_back(o);
 }
 
-static void c05_gen(Tape &t, Case &c) { gen_history(t, c, 14, true, 3); }
+static void c05_gen(Tape &t, Case &c) { g_adaptive_tail = true; gen_history(t, c, 14, true, 3); g_adaptive_tail = false; }
 
 // fresh exact solve of a model -> (status, value); status 0 on error
 static void scratch_solve(const Model &m, int &status, Q &value, Solution *sol) {
@@ -109,6 +159,9 @@ void c05_run(const Case &c, Result &r) {
   mpq_QSprob p = sut_build(m, route, &why);
   if (!p) { r.fail("build:" + why, why); return; }
   bool solved_once = false, edited_since_solve = false, warm_resolve = false;
+  bool last_solve_optimal = false;  // the last solve on this object ended OPTIMAL (edits since then do not reset it)
+  bool last_optimal = false;        // the last solve ended OPTIMAL and nothing was edited since
+  std::vector<Q> last_x;
   std::string last_edit;
   for (; pos < c.ops.size() && r.verdict == PASS; pos++) {
     const Op &o = c.ops[pos];
@@ -126,6 +179,8 @@ void c05_run(const Case &c, Result &r) {
       int fst = 0;
       Q fval;
       scratch_solve(m, fst, fval, nullptr);
+      last_optimal = false;
+      last_solve_optimal = s.rval == 0 && s.status == QS_LP_OPTIMAL;
       if (!definitive5(fst)) { r.label("scratch-nondefinitive"); solved_once = true; edited_since_solve = false; continue; }
       if (s.rval != 0 || !definitive5(s.status)) {
         if (cfg.entry == 0)
@@ -157,7 +212,9 @@ void c05_run(const Case &c, Result &r) {
           break;
         }
         if (acc.value != fval) { r.fail("resolve-vs-scratch:value:" + tag, "re-solve value " + qstr(acc.value) + " vs fresh copy " + qstr(fval)); break; }
-      }
+        last_optimal = true;
+        last_x = acc.x;
+      } else last_optimal = false;
       solved_once = true; edited_since_solve = false;
       continue;
     }
@@ -174,7 +231,81 @@ void c05_run(const Case &c, Result &r) {
                  "accessors serve a solution that is not optimal for the LP as it now stands (last edit: " + last_edit + "): " + why);
           break;
         }
-      } else r.label("probe:refused");
+      } else {
+        r.label("probe:refused");
+        // the combined fetch stops at the first refusal; whatever an individual accessor still serves must
+        // belong to an optimal solution of the LP as it stands now
+        AccessorProbe ap;
+        sut_probe_accessors(p, ap);
+        // (only where there is a solution that an edit can have made stale: this object's last solve ended
+        // OPTIMAL and it was edited since.  On a never-solved object and after a solve that did not end OPTIMAL,
+        // QSget_objval deliberately reports the objective value the simplex holds, which is not a "solution")
+        if (edited_since_solve && solved_once && last_solve_optimal && (ap.objval_ok || ap.x_ok || ap.pi_ok)) {
+          int fst = 0;
+          Q fval;
+          scratch_solve(m, fst, fval, nullptr);
+          std::string after = last_edit.empty() ? "none" : last_edit, w2;
+          if (definitive5(fst)) {
+            r.label("probe:single-accessor-served");
+            if (fst != QS_LP_OPTIMAL) {
+              r.fail("stale-solution:served-for-LP-without-optimum:after-" + after, std::string("an accessor returns a solution although the current LP is ") + stname5(fst) +
+                     strprintf(" (objval %d, x %d, pi %d, slack %d, rc %d; status %d)", (int)ap.objval_ok, (int)ap.x_ok, (int)ap.pi_ok, (int)ap.slack_ok, (int)ap.rc_ok, ap.status));
+            } else if (ap.objval_ok && ap.objval != fval) {
+              r.fail("stale-solution:objval:after-" + after, "QSget_objval serves " + qstr(ap.objval) + ", the optimum of the current LP is " + qstr(fval));
+            } else if (ap.x_ok) {
+              Q cx = 0;
+              for (int j = 0; j < m.n(); j++) cx += m.cols[j].obj * ap.x[j];
+              if (!primal_feasible(m, ap.x, &w2)) r.fail("stale-solution:x-infeasible:after-" + after, "QSget_x_array serves a point that violates the current LP: " + w2);
+              else if (cx != fval) r.fail("stale-solution:x-not-optimal:after-" + after, "QSget_x_array serves a feasible point of value " + qstr(cx) + ", the optimum is " + qstr(fval));
+            }
+            if (r.verdict == PASS && ap.pi_ok && fst == QS_LP_OPTIMAL) {
+              Q bound;
+              if (!dual_bound_of(m, ap.pi, bound, &w2)) r.fail("stale-solution:pi-infeasible:after-" + after, "QSget_pi_array serves multipliers that are not dual feasible for the current LP: " + w2);
+              else if (bound != fval) r.fail("stale-solution:pi-not-optimal:after-" + after, "QSget_pi_array proves the bound " + qstr(bound) + ", the optimum is " + qstr(fval));
+            }
+            if (r.verdict != PASS) break;
+          }
+        }
+      }
+      continue;
+    }
+    if (o.k == "delslack") {
+      if (o.i.size() < 6 || !last_optimal || (int)last_x.size() < m.n()) { r.label("delslack:skipped"); continue; }
+      std::vector<int> slackrows;
+      for (int i = 0; i < m.m(); i++) {
+        const Row &rw = m.rows[i];
+        Q a = 0;
+        for (auto &kv : rw.a) a += kv.second * last_x[kv.first];
+        bool tight = rw.sense == 'E' || a == rw.rhs || (rw.sense == 'R' && a == rw.rhs + rw.range);
+        if (!tight) slackrows.push_back(i);
+      }
+      int want = (int)o.i[5];
+      if ((int)slackrows.size() < 2) { r.label("delslack:fewer-than-2-slack-rows"); continue; }
+      std::vector<int> pick;
+      for (int k = 0; k < want && !slackrows.empty(); k++) {
+        int posi = (int)(o.i[2 + k] % (long)slackrows.size());
+        pick.push_back(slackrows[posi]);
+        slackrows.erase(slackrows.begin() + posi);
+      }
+      switch ((int)o.i[0] % 4) {
+      case 1: std::sort(pick.begin(), pick.end(), std::greater<int>()); break;
+      case 2: std::sort(pick.begin(), pick.end()); break;
+      case 3: std::rotate(pick.begin(), pick.begin() + 1, pick.end()); break;
+      default: break;
+      }
+      int variant = (int)o.i[1] % 5;
+      if (variant == 1 || variant == 3) variant = 0;     // the single-row forms cannot take a list
+      Op del("delrows");
+      del.I(variant);
+      for (int x : pick) del.I(x);
+      Model before = m;
+      if (!model_apply(m, del, nullptr)) { r.verdict = DISCARD; break; }
+      int rc = sut_apply(p, del, before);
+      if (rc != 0) { r.fail("valid-edit-rejected:delslack", strprintf("deleting slack rows returned %d: ", rc) + del.str()); break; }
+      r.label(std::string("delslack:done:") + (pick[0] == *std::min_element(pick.begin(), pick.end()) ? "first-is-min" : "first-not-min"));
+      edited_since_solve = true;
+      last_edit = "delslack";
+      last_optimal = false;
       continue;
     }
     if (o.k == "loadbasis") {
@@ -189,13 +320,14 @@ void c05_run(const Case &c, Result &r) {
         mpq_QSfree_basis(B);
       }
       r.label(rc ? "loadbasis:rejected" : "loadbasis:ok");
+      if (rc == 0) last_optimal = false;
       continue;
     }
     if (o.k == "copy") {
       mpq_QSprob q = mpq_QScopy_prob(p, "copy");
       if (!q) { r.fail("copy-failed", "QScopy_prob returned NULL"); break; }
       if (!o.i.empty() && o.i[0] == 1) { mpq_QSfree_prob(q); r.label("copy:keep-original"); }
-      else { mpq_QSfree_prob(p); p = q; r.label("copy:continue-on-copy"); solved_once = false; }
+      else { mpq_QSfree_prob(p); p = q; r.label("copy:continue-on-copy"); solved_once = false; last_optimal = false; last_solve_optimal = false; }
       continue;
     }
     // edit
@@ -205,6 +337,7 @@ void c05_run(const Case &c, Result &r) {
     if (rc != 0) { r.fail("valid-edit-rejected:" + o.k, strprintf("valid edit returned %d: ", rc) + o.str() + "\nlog: " + g_logbuf.substr(0, 400)); break; }
     edited_since_solve = true;
     last_edit = o.k;
+    last_optimal = false;
   }
   mpq_QSfree_prob(p);
   r.nontrivial = warm_resolve;
